@@ -279,6 +279,21 @@ def standard_run(ctx, profile, monitors, nontrivial, rule, n_quick, n_thorough, 
     return stats
 
 
+def scenario_run(ctx, builder, monitors, nontrivial, rule, n_quick, n_thorough, length, key, seed_base=800000,
+                 profile=None):
+    """a second standard_run with a scripted scenario builder; its numbers are ADDED to the coverage of the run
+    before it and kept under `key`"""
+    cov = dict(ctx.coverage)
+    n = n_quick if ctx.tier == "quick" else n_thorough
+    standard_run(ctx, profile or {"builtin_policies_only": True}, monitors, nontrivial, rule, n_quick=n, n_thorough=n,
+                 length=length, builder=builder, seeds=[ctx.seed * 1000003 + seed_base + i for i in range(n)])
+    sc = dict(ctx.coverage)
+    ctx.coverage.update(cov)
+    for k in ("evaluations", "distinct_nontrivial", "traces_validated_against_impl"):
+        ctx.coverage[k] = (cov.get(k) or 0) + (sc.get(k) or 0)
+    ctx.coverage[key] = {k: sc.get(k) for k in ("evaluations", "distinct_nontrivial", "correspondence_divergences")}
+
+
 def standard_search(ctx, profile, monitors, length, builder=None, scripted=True, n=150):
     """proof obligations broke: look for a concrete failing history on the implementation"""
     hs = run_many([ctx.seed * 104729 + 900000 + i for i in range(n)], length, profile, scripted, builder)
